@@ -411,6 +411,12 @@ def transaction_lifecycle(ctx, pfx):
         ctx.ob('%s.ORDER.%s.clear_before_release' % (pfx, fn), 'RF-ORDER', ok, b.path, '%s:%s' % (b.file, b.line),
                'the log is cleared before the active flag is lowered' if ok else
                'the active flag is lowered before (or without) clearing the log: a concurrent begin could see stale pending writes')
+        # ... and both happen on EVERY successful path: an early `return Ok` in front of them ("nothing to roll back")
+        # leaves the transaction open for good (seeded change C10-r2-b)
+        must_do(ctx, '%s.ORDER.%s.releases' % (pfx, fn), 'RF-ORDER', b, [e['pos'][0] for e in st],
+                '%s lowers the active flag' % fn, key='RF-ORDER|%s|releases' % fn)
+        must_do(ctx, '%s.ORDER.%s.clears' % (pfx, fn), 'RF-ORDER', b, [e['pos'][0] for e in cl],
+                '%s clears the pending log' % fn, key='RF-ORDER|%s|clears' % fn)
     ct = prog.one(TX + 'commit_transaction')
     oks = ok_aggregates(ct)
     good = bool(oks)
